@@ -254,6 +254,246 @@ example : HasRank ["app", "base", "fmt", "left", "right"] (importsOf diamond) :=
 
 end Goat.Props.C15
 
+/-! ## Discovery, and discovery composed with ordering -/
+
+namespace Goat.Props.C15
+open Goat.Load
+
+/-- reachable from `top` along import edges -/
+inductive Reach (g : Imports) (top : String) : String → Prop where
+  | base : Reach g top top
+  | step {p q} : Reach g top p → q ∈ importsOf g p → Reach g top q
+
+/-- import entries of the packages not yet seen: what can still be pushed on the worklist -/
+def pending (g : Imports) (seen : List String) : Nat :=
+  ((g.filter fun e => !seen.contains e.1).map fun e => e.2.length).sum
+
+def NodupKeys (g : Imports) : Prop := (g.map Prod.fst).Nodup
+
+theorem importsOf_notKey (g : Imports) (p : String) (h : p ∉ g.map Prod.fst) : importsOf g p = [] := by
+  unfold importsOf
+  have : g.lookup p = none := by
+    induction g with
+    | nil => rfl
+    | cons e t ih =>
+      simp only [List.map_cons, List.mem_cons, not_or] at h
+      obtain ⟨k, v⟩ := e
+      simp only [List.lookup_cons]
+      have : (p == k) = false := by simpa using h.1
+      simp [this, ih h.2]
+  simp [this]
+
+theorem pending_cons (g : Imports) (hn : NodupKeys g) (seen : List String) (p : String) (hp : p ∉ seen) :
+    pending g (p :: seen) + (importsOf g p).length = pending g seen := by
+  induction g with
+  | nil => simp [pending, importsOf]
+  | cons e t ih =>
+    obtain ⟨k, v⟩ := e
+    simp only [NodupKeys, List.map_cons, List.nodup_cons] at hn
+    have iht := ih hn.2
+    by_cases hk : p = k
+    · subst hk
+      have hnot : p ∉ t.map Prod.fst := hn.1
+      have e0 : importsOf ((p, v) :: t) p = v := by simp [importsOf, List.lookup_cons]
+      have e1 : importsOf t p = [] := importsOf_notKey t p hnot
+      rw [e1] at iht
+      simp only [List.length_nil, Nat.add_zero] at iht
+      have hs : seen.contains p = false := by simpa using hp
+      simp only [pending, List.filter_cons, List.contains_cons, BEq.rfl, Bool.true_or, Bool.not_true, Bool.false_eq_true,
+        if_false, hs, Bool.not_false, if_true, List.map_cons, List.sum_cons, e0]
+      simp only [pending, List.contains_cons] at iht
+      omega
+    · have e0 : importsOf ((k, v) :: t) p = importsOf t p := by
+        have : (p == k) = false := by simpa using hk
+        simp [importsOf, List.lookup_cons, this]
+      rw [e0]
+      have hkp : (k == p) = false := by
+        have : ¬ k = p := fun h => hk h.symm
+        simpa using this
+      simp only [pending, List.filter_cons, List.contains_cons, hkp, Bool.false_or]
+      simp only [pending, List.contains_cons] at iht
+      split
+      · simp only [List.map_cons, List.sum_cons]; omega
+      · exact iht
+
+structure Inv (g : Imports) (top : String) (todo seen : List String) : Prop where
+  closedUpTo : ∀ p ∈ seen, ∀ q ∈ importsOf g p, q ∈ seen ∨ q ∈ todo
+  reach : ∀ x, x ∈ todo ∨ x ∈ seen → Reach g top x
+  nodup : seen.Nodup
+  top : top ∈ todo ∨ top ∈ seen
+
+structure Res (g : Imports) (top : String) (R : List String) : Prop where
+  closed : ∀ p ∈ R, ∀ q ∈ importsOf g p, q ∈ R
+  reach : ∀ x ∈ R, Reach g top x
+  nodup : R.Nodup
+  top : top ∈ R
+
+theorem discover_res (g : Imports) (hn : NodupKeys g) (top : String) :
+    ∀ (fuel : Nat) (todo seen : List String), todo.length + pending g seen ≤ fuel → Inv g top todo seen →
+      Res g top (discover g fuel todo seen) := by
+  intro fuel
+  induction fuel with
+  | zero =>
+    intro todo seen hf hi
+    have ht : todo = [] := by
+      cases todo with
+      | nil => rfl
+      | cons a t => simp at hf
+    subst ht
+    simp only [discover]
+    exact ⟨fun p hp q hq => (hi.closedUpTo p hp q hq).elim id (fun h => by simp at h),
+      fun x hx => hi.reach x (Or.inr hx), hi.nodup, hi.top.elim (fun h => by simp at h) id⟩
+  | succ f ih =>
+    intro todo seen hf hi
+    cases todo with
+    | nil =>
+      simp only [discover]
+      exact ⟨fun p hp q hq => (hi.closedUpTo p hp q hq).elim id (fun h => by simp at h),
+        fun x hx => hi.reach x (Or.inr hx), hi.nodup, hi.top.elim (fun h => by simp at h) id⟩
+    | cons p todo =>
+      simp only [discover]
+      by_cases hs : seen.contains p = true
+      · simp only [hs, if_true]
+        have hps : p ∈ seen := by simpa using hs
+        apply ih todo seen (by simp only [List.length_cons] at hf; omega)
+        exact ⟨fun a ha q hq => (hi.closedUpTo a ha q hq).elim Or.inl (fun h => by
+                  simp only [List.mem_cons] at h
+                  rcases h with rfl | h
+                  · exact Or.inl hps
+                  · exact Or.inr h),
+               fun x hx => hi.reach x (hx.elim (fun h => Or.inl (by simp [h])) Or.inr),
+               hi.nodup,
+               hi.top.elim (fun h => by
+                  simp only [List.mem_cons] at h
+                  rcases h with rfl | h
+                  · exact Or.inr hps
+                  · exact Or.inl h) Or.inr⟩
+      · have hs' : seen.contains p = false := by simpa using hs
+        simp only [hs', Bool.false_eq_true, if_false]
+        have hps : p ∉ seen := by simpa using hs'
+        have hpend := pending_cons g hn seen p hps
+        apply ih (importsOf g p ++ todo) (p :: seen)
+          (by simp only [List.length_append, List.length_cons] at hf ⊢; omega)
+        have hpr : Reach g top p := hi.reach p (Or.inl (by simp))
+        refine ⟨?_, ?_, List.nodup_cons.mpr ⟨hps, hi.nodup⟩, ?_⟩
+        · intro a ha q hq
+          simp only [List.mem_cons] at ha
+          rcases ha with rfl | ha
+          · exact Or.inr (by simp [hq])
+          · rcases hi.closedUpTo a ha q hq with h | h
+            · exact Or.inl (by simp [h])
+            · simp only [List.mem_cons] at h
+              rcases h with rfl | h
+              · exact Or.inl (by simp)
+              · exact Or.inr (by simp [h])
+        · intro x hx
+          rcases hx with hx | hx
+          · simp only [List.mem_append] at hx
+            rcases hx with hx | hx
+            · exact Reach.step hpr hx
+            · exact hi.reach x (Or.inl (by simp [hx]))
+          · simp only [List.mem_cons] at hx
+            rcases hx with rfl | hx
+            · exact hpr
+            · exact hi.reach x (Or.inr hx)
+        · rcases hi.top with h | h
+          · simp only [List.mem_cons] at h
+            rcases h with rfl | h
+            · exact Or.inr (by simp)
+            · exact Or.inl (by simp [h])
+          · exact Or.inr (by simp [h])
+
+theorem res_complete {g : Imports} {top : String} {R : List String} (h : Res g top R) :
+    ∀ x, Reach g top x → x ∈ R := by
+  intro x hx
+  induction hx with
+  | base => exact h.top
+  | step _ hq ih => exact h.closed _ ih _ hq
+
+end Goat.Props.C15
+
+namespace Goat.Props.C15
+open Goat.Load
+
+theorem foldl_len (g : Imports) (a : Nat) :
+    g.foldl (fun n p => n + p.2.length) a = a + (g.map fun e => e.2.length).sum := by
+  induction g generalizing a with
+  | nil => simp
+  | cons e t ih => simp only [List.foldl_cons, ih, List.map_cons, List.sum_cons]; omega
+
+theorem pending_nil (g : Imports) : pending g [] = (g.map fun e => e.2.length).sum := by
+  have : g.filter (fun _ => true) = g := List.filter_eq_self.mpr (fun _ _ => rfl)
+  simp [pending, this]
+
+theorem insertSorted_perm (s : String) (l : List String) : (insertSorted s l).Perm (s :: l) := by
+  induction l with
+  | nil => exact List.Perm.refl _
+  | cons a t ih =>
+    simp only [insertSorted]
+    split
+    · exact List.Perm.refl _
+    · exact (List.Perm.cons a ih).trans (List.Perm.swap s a t)
+
+theorem sortStrings_perm (l : List String) : (sortStrings l).Perm l := by
+  induction l with
+  | nil => exact List.Perm.refl _
+  | cons a t ih =>
+    simp only [sortStrings, List.foldr_cons]
+    exact (insertSorted_perm a _).trans (List.Perm.cons a ih)
+
+/-- **discover_spec.** The worklist ends with exactly the packages reachable from the top package
+    along import edges (missing packages included, as leaves), each once. -/
+theorem discover_spec (g : Imports) (hn : NodupKeys g) (top : String) :
+    (∀ x, x ∈ discovered g top ↔ Reach g top x) ∧ (discovered g top).Nodup ∧
+    (∀ p ∈ discovered g top, ∀ q ∈ importsOf g p, q ∈ discovered g top) := by
+  have hres : Res g top (discovered g top) := by
+    apply discover_res g hn top
+    · rw [pending_nil, foldl_len]
+      simp only [List.length_cons, List.length_nil, Nat.zero_add]
+      cases g with
+      | nil => simp
+      | cons e t =>
+        simp only [List.length_cons]
+        generalize ((e :: t).map fun e => e.2.length).sum = E
+        have : (t.length + 1) * (E + 1) = t.length * (E + 1) + (E + 1) := by
+          rw [Nat.add_mul, Nat.one_mul]
+        omega
+    · exact ⟨fun p hp => by simp at hp, fun x hx => by
+              rcases hx with hx | hx
+              · simp only [List.mem_singleton] at hx; subst hx; exact Reach.base
+              · simp at hx,
+            List.nodup_nil, Or.inl (by simp)⟩
+  exact ⟨fun x => ⟨hres.reach x, res_complete hres x⟩, hres.nodup, hres.closed⟩
+
+/-- **load_spec (discovery ∘ ordering).** When `loadImports` succeeds, the run order consists of
+    exactly the packages reachable from the top package, each exactly once, and every package comes
+    after everything it imports. -/
+theorem load_spec (g : Imports) (hn : NodupKeys g) (top : String) (l : List String)
+    (h : loadOrder g top = .ok l) :
+    (∀ x, x ∈ l ↔ Reach g top x) ∧ l.Nodup ∧ DepsFirst (importsOf g) l := by
+  obtain ⟨hmem, hnd, _⟩ := discover_spec g hn top
+  have hp := sortStrings_perm (discovered g top)
+  have hk : (sortStrings (discovered g top)).Nodup := hp.nodup_iff.mpr hnd
+  obtain ⟨hperm, hndl, hdf⟩ := order_sound _ _ _ l hk h
+  refine ⟨fun x => ?_, hndl, hdf⟩
+  rw [← hmem x]
+  exact (hperm.mem_iff).trans hp.mem_iff
+
+/-- **load_ok_iff.** `loadImports` succeeds exactly when the import relation restricted to the
+    reachable packages is acyclic; otherwise it reports an import cycle. -/
+theorem load_ok_iff (g : Imports) (hn : NodupKeys g) (top : String) :
+    (∃ l, loadOrder g top = .ok l) ↔ HasRank (sortStrings (discovered g top)) (importsOf g) := by
+  obtain ⟨_, hnd, hcl⟩ := discover_spec g hn top
+  have hp := sortStrings_perm (discovered g top)
+  have hk : (sortStrings (discovered g top)).Nodup := hp.nodup_iff.mpr hnd
+  have hc : Closed (sortStrings (discovered g top)) (importsOf g) :=
+    fun k hk' d hd => hp.mem_iff.mpr (hcl k (hp.mem_iff.mp hk') d hd)
+  exact order_ok_iff_acyclic _ _ hk hc
+
+example : NodupKeys diamond := by unfold NodupKeys; decide
+
+end Goat.Props.C15
+
 #print axioms Goat.Props.C15.pick_first
 #print axioms Goat.Props.C15.order_sound
 #print axioms Goat.Props.C15.order_complete
@@ -261,3 +501,6 @@ end Goat.Props.C15
 #print axioms Goat.Props.C15.order_ok_iff_acyclic
 #print axioms Goat.Props.C15.cycle_is_error
 #print axioms Goat.Props.C15.cycle_no_rank
+#print axioms Goat.Props.C15.discover_spec
+#print axioms Goat.Props.C15.load_spec
+#print axioms Goat.Props.C15.load_ok_iff
